@@ -66,6 +66,23 @@ def o3_resolve_vs_construct(ctx, rid='C09.O3', M=None):
     r.done()
 
 
+def o3b_pyyaml_scalars(ctx, rid='R08.12', M=None):
+    """the same agreement for the two implicit tags whose typing is PyYAML's own (int, timestamp): C09 leaves them to PyYAML,
+    C08 still requires that no ValueError leaves a load"""
+    M = M or resolver_model(ctx.P)
+    loc = 'yatiml/loader.py'
+    r = ctx.rule(rid, 'plain scalars that resolve to int / timestamp are in the domain of the PyYAML constructor that then runs',
+                 floor=2)
+    for tag, ref, ctor in (('int', 'int_ctor_domain', 'construct_yaml_int'), ('timestamp', 'timestamp_ctor_domain',
+                                                                               'construct_yaml_timestamp')):
+        w = subset(M.tag_lang(M.T_load, T + tag), M.ref(ref))
+        r.check(w is None, 'every string resolving to %s is accepted by %s' % (tag, ctor),
+                'yatiml.loader:Loader:%s-resolve-vs-construct' % tag, loc,
+                '%r resolves to %s but %s raises ValueError on it (PyYAML\'s own resolver pattern is wider than its constructor; '
+                'yatiml neither narrows the pattern nor converts the error)' % (w, tag, ctor), {'string': w})
+    r.done()
+
+
 def run(ctx):
     P = ctx.P
     M = resolver_model(P)
